@@ -33,6 +33,7 @@ import (
 	"github.com/idena-network/idena-go/blockchain/types"
 	"github.com/idena-network/idena-go/blockchain/validation"
 	"github.com/idena-network/idena-go/common"
+	"github.com/idena-network/idena-go/config"
 	"github.com/idena-network/idena-go/core/appstate"
 	"github.com/idena-network/idena-go/core/state"
 	"github.com/idena-network/idena-go/vm"
@@ -50,6 +51,7 @@ type c15case struct {
 	Mode string `json:"mode"`          // shadow | chain | fuzz | congest
 	N    int    `json:"n"`             // number of generated transactions
 	Fpg  string `json:"fpg,omitempty"` // shadow mode: overwrite FeePerGas of both check states (decimal)
+	Ver  int    `json:"ver,omitempty"` // consensus version of the chain: 0 = the fixture's default (12), 11, 10, 9
 }
 
 // ------------------------------------------------------------------------------------------ snapshots
@@ -394,6 +396,40 @@ func sharedConstants(fail func(sig, detail string), what string) {
 	}
 }
 
+// dryRun: before the real application on A, the same transaction is run on A WITHOUT commit, the way the estimate API
+// (vm.Run(..., commitToState=false)) and -- before upgrade 12, for wasm transactions -- the proposer's pre-check
+// (Blockchain.tryExecuteTx, filterTxs :2201) do.  A dry run, successful or not, must not change the state: everything the
+// recorded execution touches is compared before / after.  (That the real run then gives the result of a state that never saw a
+// dry run is the A-vs-B comparison: B never sees one.)
+func (cc *caseCtx) dryRun(A *appstate.AppState, hdr *types.Header, ti txInfo, ids *idtab, pre []acct, gl int64, isWasm bool) {
+	if !isWasm && cc.r.Intn(3) != 0 {
+		return
+	}
+	check := func(how string) {
+		for i, a := range ids.list {
+			if now := snapAcct(A.State, a, cc.codes); !now.equal(pre[i]) {
+				cc.fail("C15:dry-run-wrote-state", fmt.Sprintf("%s: %s of %s changed address #%d %s: %s -> %s", "shadow", how, ti.Desc, i+1, a.Hex(), pre[i], now))
+				return
+			}
+		}
+	}
+	func() {
+		defer func() { recover() }()
+		cc.n.Chain.C15Vm(A, hdr).Run(ti.Tx, nil, gl, false)
+	}()
+	check("vm.Run(commitToState=false)")
+	cc.c.Hit("dry-run:vm.Run")
+	if isWasm && !cc.n.Cfg.Consensus.EnableUpgrade12 && !cc.bad {
+		func() {
+			defer func() { recover() }()
+			cc.n.Chain.C15TryExecuteTx(A, hdr, ti.Tx)
+		}()
+		check("tryExecuteTx (proposer pre-check)")
+		cc.c.Hit("dry-run:tryExecuteTx")
+	}
+	sharedConstants(cc.fail, "dry run: "+ti.Desc)
+}
+
 // gasOracle: an execution must not get past its gas limit.  Embedded: the real gas counter is logged after every
 // environment call; a call that completed (anything but an out-of-gas / panic result) with the counter above the limit
 // getGasLimit granted ran unmetered -- whatever the receipt says afterwards (GasUsed is capped to the limit, so
@@ -483,6 +519,13 @@ func runC15(c *hx.Ctx) error {
 		for i := 0; i < nChain; i++ {
 			cases = append(cases, c15case{Seed: c.Rng.Int63(), Mode: "chain", N: c.Scale(40, 120)})
 		}
+		// older consensus versions: the fork conditions of the wrapper (terminate amount before upgrade 11), the proposer's
+		// dry run of wasm transactions (tryExecuteTx, before upgrade 12), the pre-upgrade-10 contract versions
+		for _, ver := range []int{11, 10, 9} {
+			for i := 0; i < c.Scale(1, 4); i++ {
+				cases = append(cases, c15case{Seed: c.Rng.Int63(), Mode: "shadow", N: c.Scale(90, 300), Ver: ver})
+			}
+		}
 		for i := 0; i < c.Scale(1, 10); i++ {
 			cases = append(cases, c15case{Seed: c.Rng.Int63(), Mode: "fuzz", N: c.Scale(1200, 4000)})
 		}
@@ -526,6 +569,14 @@ func runCase(c *hx.Ctx, cs c15case) error {
 	}
 	r := rand.New(rand.NewSource(cs.Seed))
 	w := chainfx.NewWorld(cs.Seed, 8, 100, time.Date(2030, 1, 1, 0, 0, 0, 0, time.UTC))
+	if cs.Ver != 0 {
+		ver := cs.Ver
+		w.Opts.Tweak = func(cfg *config.Config) { // an older consensus: the fork flags as they were before the upgrade
+			cfg.Consensus.EnableUpgrade12 = ver >= 12
+			cfg.Consensus.EnableUpgrade11 = ver >= 11
+			cfg.Consensus.EnableUpgrade10 = ver >= 10
+		}
+	}
 	h, err := chainfx.Bootstrap(w, chainfx.HistoryOpts{}, r, false)
 	if err != nil {
 		return err
@@ -638,6 +689,7 @@ func (cc *caseCtx) oneShadow(A, B *appstate.AppState, hdr *types.Header, ti txIn
 	for i, a := range ids.list {
 		pre[i] = snapAcct(A.State, a, cc.codes)
 	}
+	cc.dryRun(A, hdr, ti, ids, pre, gl, run.wasm)
 	ap := applyWith(n, A, hdr, tx, func(v vm.VM) vm.VM { return v })
 	sharedConstants(cc.fail, "shadow: "+ti.Desc)
 	post := make([]acct, len(ids.list))
